@@ -140,11 +140,21 @@ def check_role_fn(chk, m, fn, role, cfg):
                 # reading the OLD slot after publishing the new readi is safe: the producer may fill slot w only while
                 # next(w) != readi (R4.guard of the producer), so it cannot reach slot readi-1 until readi moves again,
                 # and that is the consumer's own next publish; R4.old-slot below checks that the slot read is the old one
-                bad = [k for k in late if ev[k].kind != "load"]
+                # the consumer may also overwrite the slot it has just read (scrubbing it): until its NEXT publication that slot
+                # is either still its own (before this publication) or the one slot the ring keeps vacant (after it)
+                def scrub_of_old_slot(k):
+                    if ev[k].kind != "store" or not any(j < k and ev[j].kind == "load" and ev[j].ptr == ev[k].ptr for j in pay):
+                        return False
+                    root, off, var = ptr_parts(ev[k].ptr)
+                    if len(var) != 1 or var[0][1] != 1:
+                        return False
+                    idx = model.lin(var[0][0]) + off
+                    return model.prove_all(lambda pr: pr.prove_eq(idx, Lin.atom("own")))
+                bad = [k for k in pay if ev[k].kind != "load" and not scrub_of_old_slot(k)]
                 if late and not bad:
                     FREE_SLOT_USERS.setdefault(cfg, {}).setdefault("consumer", (fn.name, ev[late[0]].inst.loc))
                 chk.ob("R1.payload-before-publish", pathid, not bad,
-                       "the consumer only reads the payload%s" % ("" if not bad else "; write at %s" % ev[bad[0]].inst.loc) +
+                       "the consumer only reads the payload (or overwrites the slot it has already read)%s" % ("" if not bad else "; write at %s" % ev[bad[0]].inst.loc) +
                        ("; %d read(s) of the old slot follow the publication of %s (safe: one slot is always kept free)" % (len(late), own)
                         if late and not bad else ""), S.inst.loc, fn.name)
             else:
